@@ -45,9 +45,10 @@ def same(a, b):
 
 def classify(bound):
     """-> (driver spec, expectation): expectation is ('accept', lo, hi) | ('reject',) | ('unjudged', why)
-    | ('finding', lo, hi, signature)"""
+"""
     t = type(bound)
-    if t is float:
+    if isinstance(bound, float):            # a Python float or a subclass of it (numpy.float64)
+        bound = float(bound)
         spec = 'float:' + fx(bound)
         if math.isnan(bound):
             return spec, ('unjudged', 'nan bound')
@@ -62,11 +63,6 @@ def classify(bound):
         return 'str', ('reject',)
     if t is int:
         return 'int', ('reject',)
-    if isinstance(bound, (np.floating,)) and t is np.float64:
-        b = float(bound)
-        if 0 < b <= 0.5:
-            return 'other', ('finding', b, 1 - b, {'function': 'probability_bounds', 'bound_type': 'numpy.float64'})
-        return 'other', ('unjudged', 'numpy scalar')
     if bound is None or isinstance(bound, (bool, np.generic, complex)):
         return 'other', ('unjudged', 'non-indexable object')
     # sequences
@@ -100,7 +96,7 @@ def bound_forms(rng):
         [hi, lo], (0.9, 0.1), [-0.1, hi], [lo, 1.1], [-0.2, 1.2],                # descending / out of range
         ['a', hi], [lo, 'b'], ['a', 'b'], [lo], [], (hi,),                       # strings inside / too short
         0.0, 1.0, 0.7, float('nan'), True, False, None, np.float32(b), np.float64(0.0), [float('nan'), hi],
-        np.float64(b), np.float64(lo),                                           # numpy float scalar (finding)
+        np.float64(b), np.float64(lo), np.float64(1.5),                          # numpy float scalar = a float
     ]
 
 
@@ -174,13 +170,12 @@ def helper_case(chk, drv, cname, obj, snap, bound, bname):
     # ---- D: accept / reject and exact clip
     if expect[0] == 'reject':
         chk.d(status.startswith('err'), 'invalid bound specification is rejected', case)
-    elif expect[0] in ('accept', 'finding'):
+    elif expect[0] == 'accept':
         lo, hi = expect[1], expect[2]
         want = np.minimum(np.maximum(v64, lo), hi)          # NaN propagates, as in the code
         want = np.where(np.isnan(v64), np.nan, want)
         ok = status == 'ok' and isinstance(res, np.ndarray) and res.dtype == np.float64 and same(res, want)
-        chk.d(ok, 'result = elementwise clip to [lo, hi] as a new float64 array', case,
-              signature=expect[3] if expect[0] == 'finding' else None)
+        chk.d(ok, 'result = elementwise clip to [lo, hi] as a new float64 array', case)
     # ---- K: model vs implementation (status, values bit for bit, number truncated)
     if drv is not None:
         rep, line = drv.ask('bounds', spec=spec, v=','.join(case['v']) or '[]')
@@ -558,9 +553,6 @@ def get(obs, dotted):
     return obs[a][b]
 
 
-KNOWN_IPSW = {'estimator': 'IPSW', 'method': 'sampling_model', 'stabilized': False, 'generalize': True}
-
-
 def estimator_case(chk, drv, site, runner, cfg, data, U, kind, bound, seed_note):
     reach = kind.startswith('reached')
     spec, falsy, lo, hi = spec_of(bound)
@@ -582,16 +574,12 @@ def estimator_case(chk, drv, site, runner, cfg, data, U, kind, bound, seed_note)
     if not nontriv:
         chk.count('bound_kind_not_as_labelled')
         return
-    sig = None
-    if site == 'IPSW.sampling_model' and not cfg['stab'] and cfg['gen']:
-        sig = KNOWN_IPSW
     # ---------------------------------------------------------------- D
     if not reach:
         for grp in ('p', 'w'):
             for k in B[grp]:
                 chk.d(same(B[grp][k], U[grp][k]),
-                      'unreached bound: %s %s identical to the run without bound' % (site, k), case,
-                      signature=sig if k == 'ipsw' else None)
+                      'unreached bound: %s %s identical to the run without bound' % (site, k), case)
         for k in B['est']:
             # estimates: 1e-12 relative (a pandas Series becomes an ndarray when bounded: reductions may sum in a
             # different order; a bound that bites moves an estimate by >= 1e-6 on these data)
@@ -669,7 +657,7 @@ def estimator_case(chk, drv, site, runner, cfg, data, U, kind, bound, seed_note)
                     want = (1 - d) / d
                 chk.d(bool(np.allclose(B['w']['ipsw'], want, rtol=1e-13, atol=0)),
                       'IPSW weights = formula on the clipped fitted probabilities (constant numerator 1 when '
-                      'unstabilized)', case, signature=sig)
+                      'unstabilized)', case)
                 if cfg['gen']:
                     chk.d(bool((B['w']['ipsw'] <= (1 / lo) * (1 + 1e-12)).all()), 'IPSW weights <= 1/lo', case)
             if site in ('AIPTW', 'TMLE') and cfg['which'] == 'exposure':
@@ -769,7 +757,7 @@ def run(chk, drv, rng, tier):
         forms = bound_forms(rng)
         for bi, bound in enumerate(forms):
             spec, expect = classify(bound)
-            lo, hi = (expect[1], expect[2]) if expect[0] in ('accept', 'finding') else (0.1, 0.9)
+            lo, hi = (expect[1], expect[2]) if expect[0] == 'accept' else (0.1, 0.9)
             v = make_vector(rng, lo, hi)
             conts = containers(rng, v)
             names = list(conts) if (tier == 'thorough' or r == 0) else \
